@@ -33,13 +33,14 @@ from vlib.pipeline import Case, ROOT
 from vlib import gen
 
 import props.c19_bm as bm
+import props.c19_wied as wied
 
 PID = "C19"
 GEN = []
-LEAN = ["Ymq.Props.C19"] + bm.LEAN
+LEAN = ["Ymq.Props.C19"] + bm.LEAN + wied.LEAN
 AUDIT = "Ymq.Audit.C19"
 THEOREMS = ["Ymq.C19." + t for t in (
-    "crt_symmetric crt_sparse_symmetric perm_sign snf_ops_unimodular_partial snf_diag snf_reduce_cols_iso_partial echelon_det_partial det_exact_partial crt_symmetric_closed").split()] + bm.THEOREMS
+    "crt_symmetric crt_sparse_symmetric perm_sign snf_ops_unimodular_partial snf_diag snf_reduce_cols_iso_partial echelon_det_partial det_exact_partial crt_symmetric_closed").split()] + bm.THEOREMS + wied.THEOREMS
 HYPOTHESES = ["inv_mod64_spec = Ymq.IntMat.InvSpec (theorems crt_symmetric, crt_sparse_symmetric, det_exact_partial): arith::inv_mod64(a, p) on u64 "
               "arguments returns Some(i) with i < p and a*i = 1 (mod p) whenever p > 1 and gcd(a, p) = 1; discharged for the model invMod64 that the "
               "driver runs by theorem invMod64_spec of property C08 (invMod64_invSpec, crt_symmetric_closed has no hypothesis left)"]
@@ -1289,7 +1290,12 @@ def cases(tier, rng, extended=False):
     brng = _fork(rng, "C19-boundary")           # before selftest draws from rng (it does so on the first call only)
     selftest(rng)
     bmrng = _fork(rng, "C19-bm")
-    for c in itertools.chain(boundary_cases(brng, tier), bm.cases(tier, bmrng, extended), _all_cases(tier, rng, extended)):
+    wrng = _fork(rng, "C19-wied")
+    for c in itertools.chain(boundary_cases(brng, tier), bm.cases(tier, bmrng, extended), wied.cases(tier, wrng, extended),
+                             _all_cases(tier, rng, extended)):
+        # the Wiedemann pipeline is modelled (Ymq/Model/Wiedemann.lean): K on for its ops up to a dimension the list-based model handles fast
+        if c.op in wied.K_OPS and not c.k and c.o and c.profiles is None and c.args and c.args[0].count(";") < WIED_K_MAX_DIM:
+            c.k = True
         # the loops of reduce_cols / normalize / the permutation walk do not terminate when their arithmetic is wrong:
         # these requests take milliseconds, a short watchdog keeps a broken build from stalling the whole check
         if c.timeout is None:
@@ -2059,6 +2065,9 @@ def _dense_of_rels(rels):
     return rows
 
 
+WIED_K_MAX_DIM = 60
+
+
 def _pivots_too_large(det, h):
     """the documented cause of snf-reduce-refusal: after the row phase the product of the pivots is a proper multiple of h; the
     code accumulates it with i128::saturating_mul (fix cae6a5d), so for large h the product shows as i128::MAX (> h: h < 2^125)"""
@@ -2072,7 +2081,11 @@ def _finding_key(case, ans):
         rows = dec_sparse(a[0])
         if bareiss(to_dense(rows, len(rows))) != 0 and krylov_deficient(rows):
             return "sparse-det-false-zero"
-        return None
+    # ---- detz stops the CRT at the first repeated value (no determinant bound): the answer is the symmetric residue of the true
+    #      determinant modulo the product of the first 4k deterministic moduli
+    if op in ("im_det_sparse", "im_det_sparse_par") and ans not in BAD:
+        rows = dec_sparse(a[0])
+        return wied.finding_key(case, ans, "release", bareiss(to_dense(rows, len(rows))), sparse_norm(rows), len(rows))
     if op == "im_detp4" and ans not in BAD:
         rows, ps = dec_sparse(a[0]), unlst(a[1])
         M = to_dense(rows, len(rows))
@@ -2225,6 +2238,6 @@ TECHNIQUE = "Lean 4 proof about a hand model + differential correspondence check
 
 
 # ---- Berlekamp-Massey (props/c19_bm.py): lists and texts merged into this property
-MODELLED = list(MODELLED) + list(bm.MODELLED)
-UNMODELLED = list(UNMODELLED) + list(bm.UNMODELLED)
+MODELLED = list(MODELLED) + list(bm.MODELLED) + list(wied.MODELLED)
+UNMODELLED = list(UNMODELLED) + list(bm.UNMODELLED) + list(wied.UNMODELLED)
 RULE = RULE + " " + bm.RULE_BM
